@@ -51,7 +51,7 @@ def main(argv):
             direct_bad.append((i, 'exception ' + str(r)))
             continue
         o = r['ok']
-        for key in ('r1', 'r3', 'in_list'):
+        for key in ('r1', 'r3', 'in_list', 'r3_iadd', 'r3_alias'):
             for pl in physical_lines(o[key]):
                 if not pl.startswith('//'):
                     direct_bad.append((i, f'{key}: physical line {pl!r} does not start with //'))
